@@ -236,7 +236,7 @@ pub fn load_known() -> Vec<Known> {
     for line in s.lines() {
         let line = line.trim();
         let Some(rest) = line.strip_prefix("known:") else { continue };
-        let (head, text) = rest.split_once("::").unwrap_or((rest, ""));
+        let (head, text) = rest.split_once(" :: ").unwrap_or((rest, ""));
         let mut property = String::new();
         let mut site = String::new();
         let mut class = String::new();
